@@ -225,6 +225,9 @@ func (a *AddressMapArray) Decode(r stdio.Reader) (err error) {
 		return errors.WithMessage(err, "decoding array length")
 	}
 
+	if mapLen < 0 {
+		return errors.Errorf("negative array length %d", mapLen)
+	}
 	a.Addr = make([]map[BackendID]Address, mapLen)
 	for i := range mapLen {
 		err := perunio.Decode(r, (*AddressDecMap)(&a.Addr[i]))
